@@ -19,9 +19,17 @@ open Cog Cog.IR Cog.Sem
 
 def bit (b : Bool) : String := if b then "1" else "0"
 
-def decodeBoth (ss : Schemas) (pkg obj : String) (j1 j2 : Json) : DRes (GoVal × GoVal) :=
-  (goDecode semFuel ss (.ref pkg obj {}) j1).bind fun a =>
-    (goDecode semFuel ss (.ref pkg obj {}) j2).bind fun b => .ok (a, b)
+def decodeBoth (fuel : Nat) (ss : Schemas) (pkg obj : String) (j1 j2 : Json) : DRes (GoVal × GoVal) :=
+  (goDecode fuel ss (.ref pkg obj {}) j1).bind fun a =>
+    (goDecode fuel ss (.ref pkg obj {}) j2).bind fun b => .ok (a, b)
+
+/-- iterative deepening (see `goRoundTripAuto`): the first fuel 4, 6, 8, … at which both decodes
+    answer; returns that fuel too -/
+partial def decodeBothAuto (ss : Schemas) (pkg obj : String) (j1 j2 : Json) (f : Nat := 4) :
+    DRes (GoVal × GoVal) × Nat :=
+  match decodeBoth f ss pkg obj j1 j2 with
+  | .fuel => if f ≥ semFuel then (.fuel, f) else decodeBothAuto ss pkg obj j1 j2 (f + 2)
+  | r => (r, f)
 
 def goequalsCore (info : Bool) (args : List String) : IO String := do
   match args with
@@ -34,13 +42,14 @@ def goequalsCore (info : Bool) (args : List String) : IO String := do
         match Json.ofSexp s1, Json.ofSexp s2 with
         | some j1, some j2 =>
           let t : Ty := .ref pkg obj {}
-          match decodeBoth ss pkg obj j1 j2 with
+          let (res, fd) := decodeBothAuto ss pkg obj j1 j2
+          match res with
           | .err => return "err"
           | .unsup w => return "unsup " ++ w
           | .fuel => return "fuel"
           | .ok (a, b) =>
             -- Equals runs with one more unit of fuel than the decode (see `C13_decode_wt`)
-            let fe := semFuel + 1
+            let fe := fd + 1
             let wa := wt fe ss t a
             let wb := wt fe ss t b
             if !info then
